@@ -270,7 +270,14 @@ def pbf_rules(ck, P, rule="R-PBF"):
     wr = [b for b in P.bodies if b["q"].endswith("vector_tile::layer::VectorTileLayer::to_blob")]
     if rd and wr:
         for nm, dv in DEFAULTS.items():
-            init = [n for n in ir.walk_nodes(rd[0]["body"]) if n.get("k") == "let" and n["pat"].get("k") == "bind" and n["pat"]["name"] == nm and "init" in n]
+            # the local that ends up in the layer's `<nm>` field (struct literal or constructor argument), whatever it is called
+            fh = None
+            for y in ir.walk_nodes(rd[0]["body"]):
+                if y.get("k") == "struct" and (y.get("q") or "").endswith("VectorTileLayer"):
+                    for f_ in y["fields"]:
+                        if f_["name"] == nm:
+                            fh = ir.local_hid(f_["e"])
+            init = [n for n in ir.walk_nodes(rd[0]["body"]) if n.get("k") == "let" and n["pat"].get("k") == "bind" and n["pat"]["hid"] == fh and "init" in n]
             rv = ir.const_eval(init[0]["init"], {}) if init else None
             wv = None
             for n in ir.walk_nodes(wr[0]["body"]):
